@@ -11,7 +11,7 @@ the extra degrees of freedom those properties need:
   slabs  [{"lo","hi","eps": float | [ex,ey,ez] | [[xx,xy,xz],[yx,yy,yz],[zx,zy,zz]], "mu": ..., "sigma": ..., "name"}]
   sources   [{"kind":"dipole"|"mdipole","pos","pol","amp","wl","switch"} |
              {"kind":"plane","axis":a,"dir":"+","pos":k,"epol":[..] ,"wl","amp", "lo":[..],"hi":[..] (optional)}]
-  detectors [{"kind":"field"|"energy"|"poynting"|"phasor","name","lo","hi","exact":bool,"axis","switch"}]
+  detectors [{"kind":"field"|"energy"|"poynting"|"phasor","name","lo","hi","exact":bool,"axis","switch","components":[..] (field/phasor), "reduce":bool}]
   every slab / source / detector entry may carry "place": "grid" (default: set_grid_coordinates) | "real"
   (RealCoordinateConstraint on all three axes, min sides pinned at the physical edge coordinate, domain centre = 0) |
   "center" (partial_real_position = physical centre of the object relative to the domain centre)
@@ -177,11 +177,14 @@ def build(sc: dict, config=None):
         if k == "energy":
             det = fdtdx.EnergyDetector(**kw, as_slices=False, reduce_volume=d.get("reduce", False))
         elif k == "field":
-            det = fdtdx.FieldDetector(**kw, reduce_volume=d.get("reduce", False))
+            ckw = {"components": tuple(d["components"])} if d.get("components") else {}
+            det = fdtdx.FieldDetector(**kw, reduce_volume=d.get("reduce", False), **ckw)
         elif k == "poynting":
             det = fdtdx.PoyntingFluxDetector(**kw, direction=d.get("dir", "+"), fixed_propagation_axis=d.get("axis", 2), reduce_volume=d.get("reduce", True))
         elif k == "phasor":
             kw["dtype"] = jnp.complex128
+            if d.get("components"):
+                kw["components"] = tuple(d["components"])
             det = fdtdx.PhasorDetector(**kw, wave_characters=(fdtdx.WaveCharacter(wavelength=d.get("wl", 800e-9)),), reduce_volume=d.get("reduce", False))
         else:
             raise ValueError(k)
